@@ -13,7 +13,7 @@
    and the invariants below are checked on every completed pair.                      *)
 EXTENDS Wildcard, Tok, Json, CSV, IOUtils
 
-CONSTANTS Cores,     \* set of <<kind, position, fn, fn2>>
+CONSTANTS Cores,     \* set of <<kind, position, fn, fn2>>  (or <<kinds, "multi", fns, "">>, see CoreFs)
           GroupBys,  \* set of tuples of dimension items
           Befores,   \* ids of extra fields before the wildcard field
           Afters,    \* ids of extra fields after it
@@ -71,6 +71,14 @@ CoreX(c) ==
     [] pos = "paren" -> XParen(KindX(k))
 
 FP(x)     == [f |-> Field(x.e), t |-> x.t]
+\* the field(s) of a core.  Position "multi": c = <<kinds, "multi", fns, "">> with two tuples of
+\* equal length - field i is fns[i](kinds[i], ...) or, for fns[i] = "", the whole field kinds[i]:
+\* several wildcard / regex call fields in ONE statement (each must get its own type filter).
+CoreFs(c) ==
+  IF c[2] = "multi"
+  THEN [i \in DOMAIN c[3] |-> IF c[3][i] = "" THEN FP(KindX(c[1][i]))
+                               ELSE FP(XCall(c[3][i], <<KindX(c[1][i])>> \o ExtraArgs(c[3][i])))]
+  ELSE <<FP(CoreX(c))>>
 FPA(x, a) == [f |-> FieldA(x.e, a), t |-> x.t \o <<Kw("AS"), Id(a)>>]
 DP(x)     == [d |-> Dim(x.e), t |-> x.t]
 
@@ -148,7 +156,7 @@ SrcItem(it) == IF it \in {"m1", "m2", "m3"} THEN MeasX(it) ELSE SubX(SubSel(it))
 
 \* the statement of a choice record
 TopSel(c) ==
-  MkSelect(ExtraF(c.bf) \o <<FP(CoreX(c.core))>> \o ExtraF(c.af),
+  MkSelect(ExtraF(c.bf) \o CoreFs(c.core) \o ExtraF(c.af),
            [i \in DOMAIN c.src |-> SrcItem(c.src[i])],
            IF c.cond = "none" THEN <<>> ELSE <<CondX(c.cond)>>,
            [i \in DOMAIN c.gb |-> DP(DimX(c.gb[i]))])
@@ -194,7 +202,7 @@ MkCase(c, sid) ==
       sel == TopSel(c)
       w == Expand(sel.s, S)
   IN [toks |-> sel.t, stmt |-> sel.s, schema |-> Wire(S), sid |-> sid, names |-> NameOrder,
-      regexes |-> RegexWire, kind |-> c.core[1], pos |-> c.core[2]]
+      regexes |-> RegexWire, kind |-> (IF c.core[2] = "multi" THEN "multi" ELSE c.core[1]), pos |-> c.core[2]]
      @@ (IF IsErr(w) THEN [wanterr |-> w.why] ELSE [want |-> w])
 
 Init == ph = 0 /\ ch = <<>> /\ out = NoCase
